@@ -335,6 +335,16 @@ def gen_cells_program(cells: list) -> dict:
             src[site].append(f"type {nm['marker']} interface{{ {nm['mark']}() }}\n")
             body.append(f"\tvar i {nm['marker']} = {base}\n")
             arg = "i"
+        elif cons == "iface-field-store":
+            env = nm["p"] + "Envelope"
+            src[site].append(f"type {nm['marker']} interface{{ {nm['mark']}() }}\n\ntype {env} struct {{\n\tSeq int\n\tPayload {nm['marker']}\n}}\n")
+            body.append(f"\tvar e {env}\n\te.Seq = 1\n\te.Payload = x\n")
+            arg = "e"
+        elif cons == "convert":
+            wire = nm["p"].lower() + "wire"
+            src[site].append(f"type {wire} struct {{\n\t{nm['alpha']} int\n\t{nm['beta']} string\n}}\n")
+            body[0] = f"\tw := {wire}{{{nm['alpha']}: 1}}\n\tout := \"\"\n"
+            arg = f"{T}(w)"
         else:
             raise ValueError(cons)
         if via == "direct":
